@@ -744,6 +744,13 @@ func stripPkg(s string) string {
 // checkAtCalls: caller-side obligations attached to specific call sites of the unit under
 // verification ("atcall" clauses); the callee's actual arguments are visible as callee_<param>.
 func (x *Exec) checkAtCalls(fr *Frame, st *State, names []string, args []*SV, site ssa.Instruction) {
+	if fr.depth == 0 && !fr.pure && site != nil && x.unit != nil && x.unit.Con != nil {
+		for _, c := range x.unit.Con.Forbids {
+			if siteMatches(x.srcLabel(site.Pos(), "call"), c.Site) {
+				x.oblige(st, "forbid", c.Label+"@"+c.Site, c.Tags, TFalse, site.Pos())
+			}
+		}
+	}
 	if fr.depth != 0 || fr.pure || site == nil || x.unit == nil || x.unit.Con == nil || len(x.unit.Con.AtCalls) == 0 {
 		return
 	}
